@@ -128,13 +128,76 @@ type preInput struct {
 	Known      []int  `json:"known"`
 	Concurrent bool   `json:"concurrent"`
 	// a second nsqlookupd B: "" none | "healthy" | "down" (stopped after the handshake) |
-	// "500" | "garbage" (its HTTP /channels answers badly); KnownB = what B knows
+	// "500" | "garbage" (its HTTP /channels answers badly) | "removed" (taken out of nsqd's list by
+	// PUT /config/nsqlookupd_tcp_addresses before the creation: must NOT be asked) | "added" (put into
+	// the list at run time) | "restarted" (new process, new ports, behind the same TCP address; it
+	// learns KnownB after the restart); KnownB = what B knows
 	BMode  string `json:"b_mode,omitempty"`
 	KnownB []int  `json:"known_b,omitempty"`
+	// the state of the nsqd -> nsqlookupd TCP connection of A / B at the moment of the creation, while
+	// the nsqlookupd's HTTP interface stays healthy: "" connected | "refuse" (cut, reconnects refused) |
+	// "acceptclose" (cut, reconnects accepted then closed) | "stall" (every reply withheld: nsqd's 1 s
+	// read deadline) | "neg" (every reply replaced by a negative length prefix)
+	TCPA string `json:"tcp_a,omitempty"`
+	TCPB string `json:"tcp_b,omitempty"`
+}
+
+var tcpKinds = []string{"refuse", "acceptclose", "stall", "neg"}
+
+func tcpCode(k string) int {
+	for i, x := range tcpKinds {
+		if x == k {
+			return i + 1
+		}
+	}
+	return 0
+}
+
+// the fixed part of the pre-creation matrix (run on every check, whatever the seed): connection
+// state of the only nsqlookupd x every TCP fault; second nsqlookupd x its HTTP behaviour; TCP
+// fault on the second one / on both; run-time changes of the list
+var preMatrix = []preInput{
+	{},
+	{Concurrent: true},
+	{TCPA: "refuse"},
+	{TCPA: "acceptclose"},
+	{TCPA: "stall"},
+	{TCPA: "neg"},
+	{BMode: "down"},
+	{BMode: "500", Concurrent: true},
+	{BMode: "garbage"},
+	{BMode: "healthy", Concurrent: true},
+	{BMode: "healthy", TCPB: "refuse"},
+	{BMode: "healthy", TCPB: "acceptclose"},
+	{BMode: "healthy", TCPB: "stall"},
+	{BMode: "healthy", TCPB: "neg"},
+	{BMode: "healthy", TCPA: "refuse", TCPB: "acceptclose"},
+	{BMode: "removed"},
+	{BMode: "added"},
+	{BMode: "restarted"},
+	{BMode: "added", TCPB: "refuse"},
+	{BMode: "500", TCPA: "acceptclose"},
+	{TCPA: "refuse", Concurrent: true},
+	{BMode: "restarted", TCPB: "refuse"},
 }
 
 func genPrecreate(r *lib.Rand, k int) preInput {
-	in := preInput{Kind: "precreate", T: r.Intn(4), Concurrent: k%2 == 1}
+	var in preInput
+	if k < len(preMatrix) {
+		in = preMatrix[k]
+	} else {
+		modes := []string{"", "down", "500", "garbage", "healthy", "removed", "added", "restarted", "healthy"}
+		in.BMode = modes[r.Intn(len(modes))]
+		in.Concurrent = r.Chance(40)
+		if r.Chance(60) {
+			in.TCPA = tcpKinds[r.Intn(len(tcpKinds))]
+		}
+		if (in.BMode == "healthy" || in.BMode == "added" || in.BMode == "restarted") && r.Chance(60) {
+			in.TCPB = tcpKinds[r.Intn(len(tcpKinds))]
+		}
+	}
+	in.Kind = "precreate"
+	in.T = r.Intn(4)
 	seen := map[int]bool{}
 	for i := 0; i < 2+r.Intn(5); i++ {
 		c := r.Intn(10)
@@ -151,22 +214,25 @@ func genPrecreate(r *lib.Rand, k int) preInput {
 			}
 		}
 	}
-	// two thirds of the cases have a second nsqlookupd, mostly a failing one
-	modes := []string{"", "down", "500", "garbage", "healthy", "down"}
-	in.BMode = modes[k%len(modes)]
+	has := false
+	for _, c := range in.Known {
+		if c%2 == 0 {
+			has = true
+		}
+	}
+	if !has {
+		in.Known = append(in.Known, 2)
+	}
 	if in.BMode != "" {
-		has := false
-		for _, c := range in.Known {
-			if c%2 == 0 {
-				has = true
+		seenB := map[int]bool{}
+		for i := 0; i < 1+r.Intn(3); i++ {
+			c := 10 + r.Intn(8)
+			if !seenB[c] {
+				seenB[c] = true
+				in.KnownB = append(in.KnownB, c)
 			}
 		}
-		if !has {
-			in.Known = append(in.Known, 2)
-		}
-		for i := 0; i < 1+r.Intn(3); i++ {
-			in.KnownB = append(in.KnownB, 10+r.Intn(8))
-		}
+		in.KnownB = append(in.KnownB, 18) // at least one non-ephemeral channel only B knows
 	}
 	return in
 }
@@ -184,6 +250,55 @@ func rewriteHTTPPort(addr string) func([]byte) []byte {
 		nb, _ := json.Marshal(m)
 		return nb
 	}
+}
+
+// waitFor polls an exact condition (never a bare sleep as a synchronisation)
+func waitFor(d time.Duration, cond func() bool) bool {
+	dl := time.Now().Add(d)
+	for {
+		if cond() {
+			return true
+		}
+		if time.Now().After(dl) {
+			return false
+		}
+		time.Sleep(5 * time.Millisecond)
+	}
+}
+
+// identified: nsqd has read this nsqlookupd's IDENTIFY reply on a connection opened after the
+// counters were sampled (f0): the lookup loop is sequential, so a second reply frame (the first
+// PING, or a REGISTER) passing the proxy means connectCallback has stored the peer info
+func identified(px *proxy, f0 int) bool { return px.frames() >= f0+2 }
+
+// applyTCPFault breaks the nsqd -> nsqlookupd TCP connection behind px (the nsqlookupd's HTTP
+// interface is untouched) and waits until nsqd has noticed.  Returns whether that was observed.
+func applyTCPFault(px *proxy, n *nsqdProc, kind string) bool {
+	a0 := px.accepted()
+	switch kind {
+	case "refuse":
+		// cut; the first reconnect is accepted-then-closed (so that it can be observed: nsqd only
+		// dials when the peer is in stateDisconnected), every later one is refused
+		px.setAcceptAll("close")
+		px.dropConns()
+		seen := waitFor(6*time.Second, func() bool { return px.accepted() > a0 })
+		px.stopListening()
+		// from here on Connect() fails: the peer can never leave stateDisconnected again
+		refused := waitFor(3*time.Second, func() bool { return n.errContains(px.addr + ": connect: connection refused") })
+		return seen && refused
+	case "acceptclose":
+		px.setAcceptAll("close")
+		px.dropConns()
+		return waitFor(6*time.Second, func() bool { return px.accepted() >= a0+2 })
+	case "stall":
+		i0 := px.injected()
+		px.setReplyAll(&replyBeh{Kind: "stall"})
+		return waitFor(6*time.Second, func() bool { return px.injected() > i0 })
+	case "neg":
+		px.setReplyAll(&replyBeh{Kind: "bytes", Bytes: []byte{0xff, 0xff, 0xff, 0xff}})
+		return waitFor(6*time.Second, func() bool { return px.accepted() >= a0+2 })
+	}
+	return true
 }
 
 func emitPrecreate(o *lib.Out, name string, in preInput, scratch string) {
@@ -229,28 +344,48 @@ func emitPrecreate(o *lib.Out, name string, in preInput, scratch string) {
 			}
 		}
 	}()
-	n, err := startNsqd(scratch, addrs, heartbeat)
+	initAddrs := addrs
+	if in.BMode == "added" {
+		initAddrs = addrs[:1]
+	}
+	n, err := startNsqd(scratch, initAddrs, heartbeat)
 	if err != nil {
 		lib.Fatalf("nsqd: %v", err)
 	}
 	defer n.kill()
-	// wait until nsqd has read every IDENTIFY reply (it then knows the lookupds' HTTP addresses):
-	// the lookup loop is sequential, so a second reply frame (its first PING) passing a proxy
-	// means connectCallback has returned on that peer
-	dl := time.Now().Add(8 * time.Second)
-	for time.Now().Before(dl) {
-		ok := true
-		for _, px := range pxs {
-			px.mu.Lock()
-			if px.nFrames < 2 {
-				ok = false
-			}
-			px.mu.Unlock()
+	reconf := func(as []string) {
+		b, _ := json.Marshal(as)
+		if code, _, err := httpDo("PUT", "http://"+n.http+"/config/nsqlookupd_tcp_addresses", b); err != nil || code != 200 {
+			lib.Fatalf("%s: PUT /config/nsqlookupd_tcp_addresses: %v %d", name, err, code)
 		}
-		if ok {
-			break
+	}
+	// wait until nsqd has read every IDENTIFY reply (it then knows the lookupds' HTTP addresses)
+	for a := range initAddrs {
+		px := pxs[a]
+		waitFor(8*time.Second, func() bool { return identified(px, 0) })
+	}
+	if in.BMode == "added" {
+		reconf(addrs)
+		if !waitFor(8*time.Second, func() bool { return identified(pxs[1], 0) }) {
+			lib.Fatalf("%s: nsqd never identified with the nsqlookupd added at run time", name)
 		}
-		time.Sleep(10 * time.Millisecond)
+	}
+	if in.BMode == "restarted" {
+		// a new nsqlookupd process (empty registry, new TCP and HTTP ports) behind the same TCP address
+		pxs[1].setUpstream("")
+		lds[1].stop()
+		lds[1] = nil
+		pxs[1].dropConns()
+		l, err := startLookupd()
+		if err != nil {
+			lib.Fatalf("lookupd: %v", err)
+		}
+		lds[1] = l
+		f0 := pxs[1].frames()
+		pxs[1].setUpstream(l.tcp)
+		if !waitFor(8*time.Second, func() bool { return identified(pxs[1], f0) }) {
+			lib.Fatalf("%s: nsqd never re-identified with the restarted nsqlookupd", name)
+		}
 	}
 	for _, c := range in.Known {
 		post("http://"+lds[0].http+"/channel/create?topic="+tname(in.T)+"&channel="+urlq(cname(c)), nil)
@@ -269,7 +404,27 @@ func emitPrecreate(o *lib.Out, name string, in preInput, scratch string) {
 			gates[1].mu.Lock()
 			gates[1].mode = in.BMode
 			gates[1].mu.Unlock()
+		case "removed":
+			// B leaves nsqd's list.  The loop closes B's peer, then (next iteration) publishes the new
+			// list, then goes back to its select: a reply frame on A's link that is counted after B's
+			// connection has gone belongs to an iteration after the publication
+			reconf(addrs[:1])
+			if !waitFor(8*time.Second, func() bool { return pxs[1].nConns() == 0 }) {
+				lib.Fatalf("%s: nsqd never closed the connection to the removed nsqlookupd", name)
+			}
+			f0 := pxs[0].frames()
+			if !waitFor(8*time.Second, func() bool { return pxs[0].frames() > f0 }) {
+				lib.Fatalf("%s: no heartbeat on the remaining nsqlookupd after the reconfiguration", name)
+			}
 		}
+	}
+	// the TCP side of the links, with the nsqlookupds' HTTP interfaces left alone
+	faultSeen := true
+	if in.TCPA != "" {
+		faultSeen = applyTCPFault(pxs[0], n, in.TCPA) && faultSeen
+	}
+	if in.TCPB != "" && nl == 2 {
+		faultSeen = applyTCPFault(pxs[1], n, in.TCPB) && faultSeen
 	}
 	pubBok := true
 	var pubBms int64
@@ -325,20 +480,27 @@ func emitPrecreate(o *lib.Out, name string, in preInput, scratch string) {
 		}
 		return lib.CoqList(parts)
 	}
-	bmode := 0
-	switch in.BMode {
-	case "healthy":
-		bmode = 1
-	case "down", "500", "garbage":
-		bmode = 2
+	bmode := map[string]int{"": 0, "healthy": 1, "down": 2, "500": 2, "garbage": 2, "removed": 3, "added": 4, "restarted": 5}[in.BMode]
+	tcpB := in.TCPB
+	if nl == 1 {
+		tcpB = ""
 	}
 	alive := n.alive()
+	none := func(s string) string {
+		if s == "" {
+			return "none"
+		}
+		return s
+	}
 	o.Emit(lib.Case{Name: name,
-		Coq: fmt.Sprintf("(J16.Precreate %d %s %d %s %s %s %s %d %s)", in.T, ints(in.Known), bmode, ints(in.KnownB), lib.CoqBool(in.Concurrent),
+		Coq: fmt.Sprintf("(J16.Precreate %d %s %d %s %d %d %s %s %s %d %s)", in.T, ints(in.Known), bmode, ints(in.KnownB),
+			tcpCode(in.TCPA), tcpCode(tcpB), lib.CoqBool(in.Concurrent),
 			ints(created), lib.CoqList(queues), first, lib.CoqBool(pubBok && alive)),
 		Input: in, Tags: []string{"kind=precreate", fmt.Sprintf("concurrent-publisher=%v", in.Concurrent), fmt.Sprintf("known=%d", len(in.Known)),
-			"second-lookupd=" + map[bool]string{true: "none", false: in.BMode}[in.BMode == ""]},
-		Nontrivial: true, Obs: map[string]interface{}{"created": created, "queues": obsQ, "second_publisher_ms": pubBms}})
+			"second-lookupd=" + none(in.BMode), "tcp-conn-A=" + none(in.TCPA), "tcp-conn-B=" + none(tcpB),
+			fmt.Sprintf("tcp-fault-observed=%v", faultSeen)},
+		Nontrivial: true, Obs: map[string]interface{}{"created": created, "queues": obsQ, "second_publisher_ms": pubBms,
+			"tcp_fault_noticed_by_nsqd": faultSeen}})
 }
 
 // ---------------------------------------------------------------- K6 on an in-process nsqd
